@@ -196,6 +196,28 @@ pub fn order(depth: usize) -> Value {
             }
         }
     }
+    // LIMIT / OFFSET over a query with window functions (running aggregates over the input order): the rows returned belong
+    // to the full result, and there are min(n, max(0, N - m)) of them
+    for e in [Engine::Mem, Engine::Disk { block: 64, rowset: 1 }] {
+        let sqls: Vec<String> = vec![
+            "create table wn(a int primary key, b int)".into(), "insert into wn values (1, 10), (2, 20), (3, 30)".into(), "insert into wn values (4, 40), (5, 50)".into(),
+            "select a, row_number() over (), sum(b) over () from wn".into(),
+            "select a, row_number() over (), sum(b) over () from wn limit 2".into(),
+            "select a, row_number() over (), sum(b) over () from wn limit 2 offset 2".into(),
+            "select a, row_number() over (), sum(b) over () from wn offset 4".into(),
+            "select a, row_number() over (), sum(b) over () from wn limit 10 offset 1".into(),
+        ];
+        tried += 4;
+        let outs = match run(e, &sqls, &[]) { Ok(o) => o, Err(err) => return found_raw(tried, e, &sqls, &[], sqls.len() - 1, "the session to run".into(), err) };
+        if let Ok(full) = &outs[3] {
+            for (idx, want_n) in [(4usize, 2usize), (5, 2), (6, 1), (7, 4)] {
+                match &outs[idx] {
+                    Ok(got) if got.len() == want_n && got.iter().all(|r| full.contains(r)) => {}
+                    other => { if let Some(v) = found(tried, e, &sqls, &[], idx, format!("{want_n} rows out of the full result {full:?}"), format!("{other:?}")) { return v; } }
+                }
+            }
+        }
+    }
     // statements that arrive in ONE batch are planned with the statistics taken before the batch: the table still looks empty
     // to the optimizer when the SELECT is planned, every plan costs 0 and the extractor may pick any member of a class (H42)
     for e in [Engine::Disk { block: 64, rowset: 1 }, Engine::Mem] {
@@ -297,6 +319,9 @@ pub fn range(depth: usize) -> Value {
         ("t2", "w int, v int, k int primary key", vec!['w', 'v', 'k'], KeyKind::Int),
         ("t3", "k bigint primary key, v int, w int", vec!['k', 'v', 'w'], KeyKind::BigInt),
         ("t4", "v int, k varchar primary key, w int", vec!['v', 'k', 'w'], KeyKind::Str),
+        // keys declared by a table constraint; in the composite one k is NOT the leading key column
+        ("t5", "k int, v int, w int, primary key(k)", vec!['k', 'v', 'w'], KeyKind::Int),
+        ("t6", "v int, k int, w int, primary key(v, k)", vec!['v', 'k', 'w'], KeyKind::Int),
     ];
     let consts = [-1i64, 0, 5, 6, kmax - 1, kmax, kmax + 1];
     let mut preds: Vec<(String, Box<dyn Fn(i64, i64, KeyKind) -> bool>, Box<dyn Fn(KeyKind) -> String>)> = vec![];
@@ -543,6 +568,13 @@ pub fn join(depth: usize) -> Value {
                 wants.push(semi(&|x| Some(!r.iter().any(|y| lt(x, y) == Some(true)))));
                 sqls.push("select a, b from l where exists (select * from r where c > a)".into());
                 wants.push(semi(&|x| Some(r.iter().any(|y| lt(x, y) == Some(true)))));
+                // a conjunct over the outer row only inside the correlated predicate (it must not become a filter below an anti join)
+                sqls.push("select a, b from l where exists (select * from r where c = a and b > 10)".into());
+                wants.push(semi(&|x| Some(r.iter().any(|y| eq(x, y) == Some(true)) && x[1].unwrap() > 10)));
+                sqls.push("select a, b from l where not exists (select * from r where c = a and b > 10)".into());
+                wants.push(semi(&|x| Some(!(r.iter().any(|y| eq(x, y) == Some(true)) && x[1].unwrap() > 10))));
+                sqls.push("select a, b from l where not exists (select * from r where c > a and b > 10)".into());
+                wants.push(semi(&|x| Some(!(r.iter().any(|y| lt(x, y) == Some(true)) && x[1].unwrap() > 10))));
                 // inputs that need no column at all (count(*) over a join, uncorrelated EXISTS): chunks without columns still have rows (H38)
                 let one = |n: usize| vec![vec![n.to_string()]];
                 sqls.push("select count(*) from l, r".into());
@@ -708,6 +740,27 @@ enum Op { Ins(usize), Del(usize), Reopen }
 
 pub fn history(depth: usize) -> Value {
     let mut tried = 0u64;
+    // equal primary-key values (they are not rejected) within ONE insert statement and across statements: every row is kept,
+    // a DELETE by key removes (and counts) all of them, before and after a reopen
+    for e in engines().into_iter().take(3) {
+        let sqls: Vec<String> = vec![
+            "create table dup(k int primary key, v int)".into(),
+            "insert into dup values (7,70),(8,80),(7,71),(9,90),(7,72)".into(), "insert into dup values (8,81),(6,60)".into(),
+            "select k, v from dup".into(), "select k, v from dup".into(),
+            "delete from dup where k = 7".into(), "select k, v from dup".into(), "select k, v from dup".into(),
+        ];
+        let reopen = if e == Engine::Mem { vec![] } else { vec![4usize, 7] };
+        tried += 5;
+        let outs = match run(e, &sqls, &reopen) { Ok(o) => o, Err(err) => return found_raw(tried, e, &sqls, &reopen, sqls.len() - 1, "the session to run".into(), err) };
+        let all: Vec<(i64, i64)> = vec![(7, 70), (8, 80), (7, 71), (9, 90), (7, 72), (8, 81), (6, 60)];
+        let rows = |keep: &dyn Fn(i64) -> bool| -> Vec<Vec<String>> { sorted(all.iter().filter(|(k, _)| keep(*k)).map(|(k, v)| vec![k.to_string(), v.to_string()]).collect()) };
+        for (idx, want) in [(3usize, rows(&|_| true)), (4, rows(&|_| true)), (5, vec![vec!["3".to_string()]]), (6, rows(&|k| k != 7)), (7, rows(&|k| k != 7))] {
+            match &outs[idx] {
+                Ok(got) if sorted(got.clone()) == want => {}
+                other => { if let Some(v) = found(tried, e, &sqls, &reopen, idx, format!("{want:?}"), format!("{other:?}")) { return v; } }
+            }
+        }
+    }
     let batches: Vec<Vec<(i64, i64)>> = vec![
         (0..5).map(|i| (2 * i, i % 3)).collect(), (0..5).map(|i| (2 * i + 1, i % 2)).collect(), (10..16).map(|i| (i, 2)).collect()];
     let dels: Vec<(&str, Box<dyn Fn(i64, i64) -> bool>)> = vec![
@@ -904,12 +957,16 @@ pub fn expr(depth: usize) -> Value {
         formulas.push((format!("not (({si}) and ({sj})){tc}"), Box::new(move |a, b| not3(and3((at[i].f)(a, b), (at[j].f)(a, b))))));
         formulas.push((format!("not (({si}) or ({sj})){td}"), Box::new(move |a, b| not3(or3((at[i].f)(a, b), (at[j].f)(a, b))))));
     } }
-    for e in [Engine::Mem, Engine::Disk { block: 64, rowset: 1 }] {
-        let mut sqls = vec!["create table e(a int, b int)".to_string(), insert("e", &rows[..8]), insert("e", &rows[8..])];
+    // the same formulas over a table whose column a holds no NULL (declared NOT NULL): a kernel sees one operand without NULLs
+    let all_rows = rows;
+    for (e, tname, decl) in [(Engine::Mem, "e", "a int, b int"), (Engine::Disk { block: 64, rowset: 1 }, "e", "a int, b int"), (Engine::Mem, "en", "a int not null, b int")] {
+        let rows: Vec<Row> = all_rows.iter().filter(|r| tname == "e" || r[0].is_some()).cloned().collect();
+        let half = rows.len() / 2;
+        let mut sqls = vec![format!("create table {tname}({decl})"), insert(tname, &rows[..half]), insert(tname, &rows[half..])];
         let q0 = sqls.len();
         for (f, _) in &formulas {
-            sqls.push(format!("select a, b from e where {f}"));
-            sqls.push(format!("select a, b, {f} from e"));
+            sqls.push(format!("select a, b from {tname} where {f}"));
+            sqls.push(format!("select a, b, {f} from {tname}"));
         }
         tried += (sqls.len() - q0) as u64;
         let outs = match run(e, &sqls, &[]) { Ok(o) => o, Err(err) => return found_raw(tried, e, &sqls, &[], sqls.len() - 1, "the session to run".into(), err) };
